@@ -545,6 +545,26 @@ def o_c06(rec):
                          f"{len(objs)} times", n=len(objs)))
             break
         point = objs[0]["x"] if objs else None
+        if point is not None and ev["exc"] is None:
+            # the user point is the DOCUMENTED image of the solver's point
+            # (harness map, independent of Problem.build_x)
+            want = truth.user_point(b, bool(completed_options(rec).get(
+                "scale")), ev["x"])
+            if want is not None and np.all(np.isfinite(want)):
+                info["map_checks"] = info.get("map_checks", 0) + 1
+                err = np.abs(point - want)
+                lim = 8 * EPS * np.maximum(np.abs(want), np.abs(point)) \
+                    + 8 * EPS * np.maximum(
+                        np.where(np.isfinite(b.lb), np.abs(b.lb), 0.0),
+                        np.where(np.isfinite(b.ub), np.abs(b.ub), 0.0))
+                if point.shape != want.shape or np.any(err > lim):
+                    out.append(V(
+                        "user_point_not_documented_map",
+                        f"evaluation {ev['i']}: the objective was called at "
+                        f"{point.tolist()} but the solver's point "
+                        f"{ev['x'].tolist()} corresponds to {want.tolist()} "
+                        f"in the user's variables", mechanism="map"))
+                    break
         if point is None and not any(e["t"] == "con" for e in sl):
             # no user function called in this round (fun=None and every
             # constraint call served by the one-entry cache): the user point
